@@ -338,6 +338,8 @@ func c16Case(u *U, v cty.Value, ct *TS) {
 }
 
 func runC16(c *Ctx) {
+	// history clause first, so that each worker process meets it in its initial state
+	histFamily(c, "msgpack encoder and decoder calls", msgpackHistoryOps)
 	// names and strings that need escaping (shared with C15), also with an unknown member
 	for _, hv := range nameHazardValues() {
 		hv := hv
